@@ -300,7 +300,8 @@ func TestVfC05Pipeline(t *testing.T) {
 			"cancel": func(t *rapid.T) {
 				a := h.active()
 				if len(a) == 0 {
-					t.Skip("no active exchange")
+					start(t)
+					return
 				}
 				e := a[rapid.IntRange(0, len(a)-1).Draw(t, "which")]
 				e.cancel()
@@ -315,7 +316,8 @@ func TestVfC05Pipeline(t *testing.T) {
 			"reply": func(t *rapid.T) {
 				w, tok, ok := pickWire(t, true)
 				if !ok {
-					t.Skip("nothing to reply to")
+					start(t)
+					return
 				}
 				// out-of-order when an older outstanding query exists on that connection
 				for ow, otok := range h.ids[w.conn] {
@@ -341,7 +343,8 @@ func TestVfC05Pipeline(t *testing.T) {
 			"replyTwiceAtOnce": func(t *rapid.T) {
 				w, tok, ok := pickWire(t, true)
 				if !ok {
-					t.Skip("nothing to reply to")
+					start(t)
+					return
 				}
 				h.deliver(w.conn, w.wireID, tok)
 				h.deliver(w.conn, w.wireID, tok)
@@ -358,7 +361,8 @@ func TestVfC05Pipeline(t *testing.T) {
 				// reply to a wire whose exchange has already returned (answered, cancelled or failed)
 				w, tok, ok := pickWire(t, false)
 				if !ok {
-					t.Skip("no finished wire")
+					start(t)
+					return
 				}
 				h.deliver(w.conn, w.wireID, tok)
 				h.stats.late++
@@ -372,12 +376,14 @@ func TestVfC05Pipeline(t *testing.T) {
 					}
 				}
 				if len(open) == 0 {
-					t.Skip("no open connection")
+					start(t)
+					return
 				}
 				c := open[rapid.IntRange(0, len(open)-1).Draw(t, "conn")]
 				id := rapid.Uint16().Draw(t, "id")
 				if _, used := h.ids[c][id]; used {
-					t.Skip("id in use")
+					start(t)
+					return
 				}
 				h.deliver(c, id, 0)
 				h.stats.unsolicited++
@@ -391,7 +397,8 @@ func TestVfC05Pipeline(t *testing.T) {
 					}
 				}
 				if len(open) == 0 {
-					t.Skip("no open connection")
+					start(t)
+					return
 				}
 				c := open[rapid.IntRange(0, len(open)-1).Draw(t, "conn")]
 				var err error
